@@ -51,6 +51,15 @@ def groups(ctx, thorough):
         if c['w'] in c01.HOST_CONCURRENT or c['w'] in c01.NO_VERIFY_FLAG:
             continue
         byprog.setdefault(prog_key(c), []).append(c)
+    # unified-device variants at the share boundaries of distributeWGToGPUs (Config.BoundaryCounts), each compared with
+    # the single-GPU emulation run of the same size
+    bnd = sets['boundary_all'] if thorough else [c for c in sets['boundary_quick'] if c['c']['mode'] == 'emu' or c['knobs']]
+    bgroups = {}
+    for c in bnd:
+        ref = {'w': c['w'], 'names': c['names'], 'p': c['p'],
+               'c': {'mode': 'emu', 'gpu': 'none', 'arch': c['c']['arch'], 'n': 1, 'dist': 'plain', 'umem': 0}}
+        bgroups.setdefault(prog_key(c), (ref, []))[1].append(c)
+    boundary = [(key + ' (share boundary)', ref, sorted(var, key=c01.case_key)) for key, (ref, var) in sorted(bgroups.items())]
     out = []
     for key in sorted(byprog):
         cs = byprog[key]
@@ -69,7 +78,7 @@ def groups(ctx, thorough):
         return [dict(c, knobs=SMALL_PLATFORM) for c in uni]
 
     if thorough:
-        return [(key, ref, var + small(var, i, True)) for i, (key, ref, var) in enumerate(out)]
+        return [(key, ref, var + small(var, i, True)) for i, (key, ref, var) in enumerate(out)] + boundary
     # quick: one program per workload (rotating size class), all emulation variants of the distributing workloads and the
     # unified ones of the rest, plus two timing variants per distributing workload
     byw = {}
@@ -77,17 +86,13 @@ def groups(ctx, thorough):
         byw.setdefault(g[1]['w'], []).append(g)
     pick = []
     for i, (w, gs) in enumerate(sorted(byw.items())):
-        # every size class on the small unified platform (cheap, and the remainders differ per size)
-        for j, (key2, ref2, var2) in enumerate(gs):
-            if j != (ctx.seed + i) % len(gs) and small(var2, i + j, False):
-                pick.append((key2, ref2, small(var2, i + j, False)))
         key, ref, var = gs[(ctx.seed + i) % len(gs)]
         emu = [c for c in var if c['c']['mode'] == 'emu' and (w in DISTRIBUTING or c['c']['dist'] == 'unified')]
         emu = [c for j, c in enumerate(emu) if w in DISTRIBUTING or (j + ctx.seed + i) % 4 == 0]
         tim = [c for c in var if c['c']['mode'] == 'timing' and c['c']['umem'] == 0]
         tim = [c for j, c in enumerate(tim) if (j + ctx.seed + i) % len(tim) < (2 if w in DISTRIBUTING else 1)] if tim else []
         pick.append((key, ref, emu + tim + small(var, i, False)))
-    return pick
+    return pick + boundary
 
 
 def data_buffers(obs):
@@ -136,11 +141,16 @@ def run_system(ctx):
     pool = []
     for (gi, c), v in zip(flat, vres):
         ref = refs[gi]
-        if c01.classify_quiet(ref) is not None:
-            # the single-GPU emulation run itself fails: C01's business, no reference to compare with
-            ctx.notes.append('reference run of %s fails (%s)' % (gs[gi][0], c01.classify_quiet(ref)[0]))
+        rf = c01.classify_quiet(ref)
+        if rf is not None and not (rf[0] == 'verify_failed' and ref['obs']):
+            # the single-GPU emulation run itself crashes: C01's business, no reference to compare with
+            ctx.notes.append('reference run of %s fails (%s)' % (gs[gi][0], rf[0]))
             continue
         f = c01.classify(v)
+        if rf is not None and f is not None and f[0] == 'verify_failed' and c01.norm_msg(f[1]) == c01.norm_msg(rf[1]):
+            # the workload misses its host reference already on one GPU (C01 reports that) and the variant misses it the
+            # same way: what this property asks is that the data are the same, compared below
+            f = None
         if f is not None:
             kind, detail = f
             again = c01.run_case(ctx, drv, 'sysconfirm%d' % compared, c, extra)
